@@ -21,9 +21,9 @@ Proof.
 Qed.
 
 (* every cached entry is what the uncached resolver computes on the current data *)
-Definition coherent (o : oracle) (h : hobj) : Prop :=
+Definition coherent (o : cfg) (h : hobj) : Prop :=
   Forall (fun kv => snd kv = resolve_uncached o (h_data h) (fst kv)) (h_cache h).
-Definition inv (o : oracle) (w : world) : Prop := Forall (coherent o) w.
+Definition inv (o : cfg) (w : world) : Prop := Forall (coherent o) w.
 
 Lemma lru_get_in c k v : lru_get c k = Some v -> exists k', In (k', v) c /\ k = k'.
 Proof.
